@@ -64,10 +64,13 @@ CLAIMED = {
          "Same rules as C19 on the TL2 parser functions, plus expect*(eof) only as the loop exit of the file parser. The OptionalState progress discipline is covered only as 'unbounded loops have an exit'; termination by token consumption is not decided.",
          "clause only; trusts go/types", "DESIGN.md §3 C20"),
  "C21": ("other", "field-use coverage: type-resolved field writes of the parser vs field reads of the printer family over the call graph",
-         "Decides only a necessary condition of the print→parse round trip: every schema-meaning AST field the TL1 parser writes (positions and comments excluded; Arithmetic.Res listed as derived) is read by some function of the String() printer family reachable from Combinator.String. Does not decide that the printed text re-parses to the same combinators.",
+         "Decides two necessary conditions of the print→parse round trip: every schema-meaning AST field the TL1 parser writes (positions and comments excluded; Arithmetic.Res listed as derived) is read by some function of the String() printer family reachable from Combinator.String; and no node printer emits the text of a field before that of a field the node's parser consumes earlier (token order). Does not decide that the printed text re-parses to the same combinators.",
          "clause only; reachability over-approximates the printer family", "DESIGN.md §3 C21"),
+ "C22": ("other", "field-use coverage (parser writes vs formatter reads over the call graph) and parser-step vs emission-order agreement per TL2 AST node",
+         "Decides two necessary conditions of the TL2 format→parse round trip: every schema-meaning TL2 AST field the TL2 parser fills is read by a printer reachable from TL2File.Print, and no printer of a node emits the text of a field before that of a field the parser consumes earlier. Does NOT decide that formatted text re-parses to the same declarations, nor idempotence (both depend on line-width driven layout and need execution).",
+         "clause only; reachability over-approximates the printer family", "DESIGN.md §8.2"),
  "C25": ("other", "loop-totality rule on Generate2TL, effective-tag rule, field-use coverage of the canonical printer family",
-         "Decides that Generate2TL emits exactly one canonicalFormWithTag line per combinator (skipping only nil entries and the five builtin names), that the tag printed after the constructor name is the 8-hex-digit Crc32() (effective tag), and that every schema-meaning field written by the parser is read by the canonical printer family. Does not decide that each line parses back to the same combinator (needs execution); the F2 defect of the canonical form is recorded under C23.",
+         "Decides that Generate2TL emits exactly one canonicalFormWithTag line per combinator (skipping only nil entries and the five builtin names), that the tag printed after the constructor name is the 8-hex-digit Crc32() (effective tag), that every schema-meaning field written by the parser is read by the canonical printer family, and that a field the ordinary printer of a node consults on every path is consulted on every path by the listing's printers of that node (three genuine deviations are known findings). Does not decide that each line parses back to the same combinator (needs execution); the F2 defect of the canonical form is recorded under C23.",
          "clause only", "DESIGN.md §3 C25"),
  "C23": ("other", "call-graph non-interference between the canonical and the ordinary printer families + dominance rules on tag assignment",
          "Decides that crc32() is ChecksumIEEE over canonicalForm(), that Construct.ID is computed only when no explicit tag was parsed and explicit tags are stored verbatim (base 16), and that nothing reachable from canonicalForm reads layout/comment fields or as-written arithmetic or crosses into the ordinary printer family. One genuine deviation is a known finding (bracket fields). The CRC value and token-level layout of the canonical text are not decided.",
@@ -121,7 +124,6 @@ CLAIMED = {
 
 NOT_APPLICABLE = {
  "C11": "the property is agreement with an independent reference codec executed on values; its structural parts (layout tables, reader/writer duality) are decided under C33/C01/C03",
- "C22": "print∘parse round trip and idempotence of a line-width-driven formatter are value-level; no structural necessary condition that would distinguish idempotence",
  "C27": "relates two generations of code from two schemas over all values; needs the kernel's semantics as oracle",
  "C29": "acceptance is the absence of every rejection on concrete schema pairs; a syntactic rule was considered and rejected as brittle",
  "C31": "cross-language execution agreement; no type-resolved C++ front end for the generated templates in this sandbox",
